@@ -103,18 +103,44 @@ func calledCtors(stmts []ast.Stmt) []string {
 	return out
 }
 
-func oneofsBuilt(stmts []ast.Stmt) []string {
+// oneofsBuilt lists the gNMI oneof wrappers built by the statements — and by helpers of the package that the
+// obligation tables have never seen (a wrapper literal moved into an extracted function is still built).
+func oneofsBuilt(c *engine.Ctx, rel string, stmts []ast.Stmt) []string {
 	var out []string
-	for _, s := range stmts {
-		ast.Inspect(s, func(n ast.Node) bool {
-			if cl, ok := n.(*ast.CompositeLit); ok {
-				t := types.ExprString(cl.Type)
+	var scan func(n ast.Node, depth int)
+	pkg := c.P.Pkg(rel)
+	scan = func(root ast.Node, depth int) {
+		ast.Inspect(root, func(n ast.Node) bool {
+			switch x := n.(type) {
+			case *ast.CompositeLit:
+				t := types.ExprString(x.Type)
 				if strings.Contains(t, "TypedValue_") {
 					out = append(out, shortOneof(t))
+				}
+			case *ast.CallExpr:
+				if pkg == nil || depth >= 2 {
+					return true
+				}
+				var id *ast.Ident
+				switch f := ast.Unparen(x.Fun).(type) {
+				case *ast.Ident:
+					id = f
+				case *ast.SelectorExpr:
+					id = f.Sel
+				}
+				if id != nil {
+					if fn, _ := pkg.TypesInfo.Uses[id].(*types.Func); fn != nil {
+						if h := c.P.Funcs[fn]; h != nil && h.Pkg == pkg && engine.IsNewHelper(h) {
+							scan(h.Decl.Body, depth+1)
+						}
+					}
 				}
 			}
 			return true
 		})
+	}
+	for _, s := range stmts {
+		scan(s, 0)
 	}
 	return out
 }
@@ -260,14 +286,14 @@ func valueTables(c *engine.Ctx, id, vals, tree string) {
 			continue
 		}
 		o.Eval(1)
-		built := oneofsBuilt(r1Cases[k])
+		built := oneofsBuilt(c, vals, r1Cases[k])
 		if len(built) == 0 || built[0] != norm(oneof) {
 			o.Fail(&engine.Violation{Key: vals + "|inverse " + oneof, Pos: vals, Func: "NativeTypeToGnmiTypedValue", Msg: fmt.Sprintf("gNMI %s is stored as %s, which is written back as %v, not %s", oneof, k, built, norm(oneof))})
 		}
 	}
 	for oneof, k := range elemKind {
 		o.Eval(1)
-		built := oneofsBuilt(r1Cases[k])
+		built := oneofsBuilt(c, vals, r1Cases[k])
 		okElem, okList := false, false
 		for _, b := range built {
 			if b == norm(oneof) {
